@@ -13,6 +13,8 @@ let fnv (l : n list) =
 let xfer proto script =
   (* tls_send and (since commit c5b289c) tls13_send clamp at 2^14: run12 / run13 of Tls/Stream.v *)
   let clamp, cap = Some max_plain, None in
+  let allow_empty = (proto = "tls13") in
+  let base = if proto = "tls13" then 0 else 1 in      (* the Finished records consumed sequence number 0 in TLCP / TLS 1.2 *)
   let st = [| dir_init; dir_init |] in           (* direction 0 = client->server, 1 = server->client *)
   let nw = [| 0; 0 |] in
   let wire = [| []; [] |] in
@@ -26,7 +28,7 @@ let xfer proto script =
     if t.[0] = 'w' then begin
       let k = nw.(side) in nw.(side) <- k + 1;
       let data = List.init n (fun i -> n_of_int (pat side k i)) in
-      match write_all clamp cap (nat_of_int n) st.(side) data with
+      match write_all clamp cap allow_empty (nat_of_int n) st.(side) data with
       | Ok (s', ns) ->
         st.(side) <- s';
         let ns = List.map int_of_nat ns in
@@ -35,6 +37,13 @@ let xfer proto script =
           if proto = "tls13" then 5 + m + 17 else 5 + 16 + m - (m mod 16) + 48) ns
       | Err -> Buffer.add_string out "wERR"
       | Fault -> Buffer.add_string out "wFAULT"; dead := true
+    end else if t.[0] = 'e' then begin
+      match send1 clamp cap allow_empty st.(side) [] with
+      | Ok (s', m) -> st.(side) <- s';
+        Buffer.add_string out (Printf.sprintf "e%d" (int_of_nat m));
+        wire.(side) <- wire.(side) @ [5 + 17]
+      | Err -> Buffer.add_string out "eERR"
+      | Fault -> Buffer.add_string out "eFAULT"; dead := true
     end else begin
       let d = 1 - side in                          (* a read on side s consumes direction other->s *)
       match recv1 st.(d) (nat_of_int n) with
@@ -42,7 +51,10 @@ let xfer proto script =
         Buffer.add_string out (Printf.sprintf "r%d:%08x" (List.length data) (fnv data))
       | Err -> Buffer.add_string out "rERR"
       | Fault -> Buffer.add_string out "rFAULT"
-    end) steps;
+    end;
+    Buffer.add_string out (Printf.sprintf "@%d.%d.%d.%d"
+      (base + int_of_nat st.(0).sseq) (base + int_of_nat st.(1).rseq)
+      (base + int_of_nat st.(0).rseq) (base + int_of_nat st.(1).sseq))) steps;
   let w d = if wire.(d) = [] then "-" else String.concat "+" (List.map (fun l -> Printf.sprintf "23:%d" l) wire.(d)) in
   if !dead then "FAULT"
   else Printf.sprintf "xfer=%s wire=%s/%s nrec=%d:%d/%d:%d" (Buffer.contents out) (w 0) (w 1)
